@@ -75,7 +75,7 @@ pub(crate) fn schema_impl(input: SchemaDeriveInput) -> Result<TokenStream, Error
 	let compute_namespace_expr = quote! { module_path!().replace("::", ".") };
 	let type_name_var = match &input.namespace {
 		None => {
-			let type_name_str = format!(".{}", name_ident);
+			let type_name_str = format!(".{}", name_ident.unraw());
 			quote! {
 				let mut type_name = #compute_namespace_expr;
 				type_name.push_str(#type_name_str);
@@ -83,9 +83,9 @@ pub(crate) fn schema_impl(input: SchemaDeriveInput) -> Result<TokenStream, Error
 		}
 		Some(namespace) => {
 			let type_name = if namespace.is_empty() {
-				name_ident.to_string()
+				name_ident.unraw().to_string()
 			} else {
-				format!("{}.{}", namespace, name_ident)
+				format!("{}.{}", namespace, name_ident.unraw())
 			};
 			quote! {
 				let mut type_name = #type_name.to_owned();
